@@ -3,11 +3,13 @@ package e1
 import (
 	"bytes"
 	"fmt"
+	"github.com/polynetwork/poly/native/service/governance/node_manager"
 	"strings"
 
 	"github.com/polynetwork/poly/common"
 	"github.com/polynetwork/poly/native/service/utils"
 
+	"polysim/chain"
 	"polysim/kernel"
 )
 
@@ -59,6 +61,7 @@ func attribute(c common.Address, key []byte) []string {
 // contract, and no written key can be read as two different record kinds of its contract.
 func (s *Sim) checkKeys(t *TxTrace) {
 	r := s.R
+	s.checkApprovalRecordKeys(t)
 	for _, k := range sortedKeys(t.Writes) {
 		if len(k) < 21 {
 			continue // reported by the confinement check
@@ -157,5 +160,37 @@ func checkKeyCensus(r *kernel.Run) {
 			}
 			r.Probe("census_kind_pair_compared")
 		}
+	}
+}
+
+// checkApprovalRecordKeys (C17, runtime injectivity): every approval record (node manager
+// "consensusSigns" + 32-byte id) a transaction writes belongs to one logical record, the
+// (action, request) its step names. Within a run, two different logical records must never be
+// written under the same storage key.
+func (s *Sim) checkApprovalRecordKeys(t *TxTrace) {
+	if t.P == nil {
+		return
+	}
+	st := t.P.Step
+	if _, isApproval := approveEvents[st.Op]; !isApproval {
+		return
+	}
+	ident := st.Op + "|" + reqKeyOf(s, st.Op, st.Arg(0))
+	if st.Op == "blacknode" {
+		ident = st.Op + "|" + strings.Join(s.BlackList(st), ",")
+	}
+	prefix := string(rawKey(chain.NodeManager, []byte(node_manager.CONSENSUS_SIGNS)))
+	if s.recordOwner == nil {
+		s.recordOwner = map[string]string{}
+	}
+	for _, k := range sortedKeys(t.Writes) {
+		if !strings.HasPrefix(k, prefix) || len(k) != len(prefix)+32 {
+			continue
+		}
+		if prev, ok := s.recordOwner[k]; ok && prev != ident {
+			s.R.Fail("C17", "two-records-share-a-storage-key", "%v (%s) wrote the approval record %x, which an approval of the different logical record %s wrote before", st, ident, k, prev)
+		}
+		s.recordOwner[k] = ident
+		s.R.Probe("approval_record_key_owner_checked")
 	}
 }
